@@ -854,6 +854,18 @@ def check_witness_guards(ctx, rule):
                     if any(s(pt) == s(x) for x in stored):
                         why = 'dominated by %s.contains(stored point) == true' % fmt(l[1][2][0])
                         site += ':contains:' + ('repaired' if any(is_call(x, 'AffTree::mirror_points') for x in walk(pt)) else 'lp')
+        # (b') the stored point is the payload of `opt.filter(|c| P.contains(c))` in its Some arm
+        if why is None:
+            stored = _stored_points(payload, b, R)
+            for l in lits:
+                if l[0] == 'is' and l[2] == frozenset(['Some']) and is_call(l[1], 'Option::filter') and len(l[1][2]) == 2 and l[1][2][1][0] == 'closure':
+                    cb, rets = closure_ret(F, l[1][2][1])
+                    if cb is not None and rets and len(rets) == 1 and is_call(rets[0], 'AffFuncBase::contains') and rets[0][2][1] == ('param', cb.arg_names()[-1]):
+                        pay = ('vfield', l[1], 'Some', '0')
+                        if any(s(x) in (s(pay), s(l[1])) for x in stored):
+                            poly = rets[0][2][0]
+                            why = 'Some payload of an Option filtered by %s.contains' % fmt(poly)
+                            site += ':contains:' + ('repaired' if any(is_call(x, 'AffTree::mirror_points') for x in walk(l[1])) else 'lp')
         # (c) Some payload of mirror_points(P, ..): the stored points are exactly the columns of the returned array (each column passed the
         # distance filter as a whole; any other cut of the array - rows, chunks of the flattened data - mixes coordinates of different points)
         if why is None:
@@ -867,6 +879,13 @@ def check_witness_guards(ctx, rule):
                 else:
                     ctx.bad(rule, site + ':mirror', 'the cached points are not the columns of the array returned by mirror_points (each column is one tested point): %s' % fmt(s(payload))[:200], span)
                     continue
+        if why and site.endswith(':repaired'):
+            # a single repaired point is one column of the array mirror_points returned (a row has the wrong length for in_dim >= 2:
+            # the containment test on it panics, or, for square shapes, tests a mix of coordinates)
+            col = [column_of_mirror(beta_option_map(F, x)) for x in _stored_points(payload, b, R)]
+            if False in col or True not in col:
+                ctx.bad(rule, site, 'the repaired point is not taken as a column of the array returned by mirror_points (each column is one point)', span)
+                continue
         if why:
             ctx.ok(rule, site, 'witness stored only after a containment test: ' + why, span)
         else:
@@ -907,48 +926,66 @@ def _stored_points(payload, b=None, R=None):
 
 
 def check_mirror_contract(ctx, rule):
-    """mirror_points returns Some only of columns that passed its own `distances >= 0` filter."""
+    """mirror_points returns Some only of columns that passed its own `distances >= 0` filter, and the distances tested are
+    b - A·candidates of the normalised polytope, shifted (if at all) away from acceptance."""
+    from ..mir import strip_sites as s_
     F = ctx.facts
     b = ctx.body(rule, 'AffTree::mirror_points')
     if b is None:
         return
     R = Resolver(b)
+    cfg = b.cfg()
+
+    def all_nonneg(clo, want_field):
+        """closure = |item| item[.1].iter().all(|v| v >= 0)"""
+        cb, rets = closure_ret(F, clo)
+        if not (rets and len(rets) == 1 and is_call(rets[0], 'Iterator::all')):
+            return False
+        onfield, inner = rets[0][2][0], rets[0][2][1]
+        cb2, rets2 = closure_ret(F, inner)
+        if not (rets2 and len(rets2) == 1 and rets2[0][0] == 'bin' and rets2[0][1] == 'Ge' and rets2[0][3] == ('const', 0.0)):
+            return False
+        if want_field is None:
+            return onfield[0] == 'param'
+        return onfield[0] == 'field' and onfield[2] == want_field
+
+    def dist_ok(cand, dist):
+        d = find(dist, lambda x: is_call(x, 'Sub::sub'))
+        if not d:
+            return 'no distance computation found'
+        lhs, rhs = d[0][2]
+        uses_bias = any(isinstance(x, tuple) and x[:1] == ('field',) and x[2] == 'bias' for x in walk(lhs))
+        dot = find(rhs, lambda x: is_call(x, 'ArrayBase::dot'))
+        uses_mat = dot and any(isinstance(x, tuple) and x[:1] == ('field',) and x[2] == 'mat' for x in walk(dot[0][2][0]))
+        same_pts = dot and any(s(x) == s(_strip_axis(cand)) for x in walk(dot[0][2][1]))
+        norm = find(d[0], lambda x: is_call(x, 'AffFuncBase::normalize'))
+        of_poly = norm and all(x[2][0] == ('param', 'poly') for x in norm)
+        if uses_bias and uses_mat and same_pts and of_poly:
+            return None
+        return 'distances are not bias - mat·candidates of normalize(poly)'
+
     somes = 0
+    some_blocks = []
+    dist_expr = None
     for i, j, st in b.stmts():
         if st['k'] == 'assign' and st['place']['local'] == 0 and not st['place']['proj']:
             v = R.rvalue(st['rv'], i, j)
             if v[0] == 'agg' and isinstance(v[1], tuple) and v[1][2] == 'None':
                 continue
             somes += 1
+            some_blocks.append(i)
             site = '%s#return-Some' % b.qname
             src, filters = filter_chain(v)
             ok = False
             detail = ''
             if filters and is_call(src, 'zip') or (src is not None and src[0] == 'call' and src[1].endswith('zip')):
                 cand, dist = src[2][0], src[2][1]
-                # closure: all(|v| v >= 0) on the distance component
                 for f in filters:
-                    cb, rets = closure_ret(F, f)
-                    if rets and len(rets) == 1 and is_call(rets[0], 'Iterator::all'):
-                        inner = rets[0][2][1]
-                        onfield = rets[0][2][0]
-                        cb2, rets2 = closure_ret(F, inner)
-                        if rets2 and len(rets2) == 1 and rets2[0][0] == 'bin' and rets2[0][1] == 'Ge' and rets2[0][3] == ('const', 0.0) \
-                                and onfield[0] == 'field' and onfield[2] == '1':
-                            # distances = b - A*candidates on the normalised polytope
-                            d = find(dist, lambda x: is_call(x, 'Sub::sub'))
-                            if d:
-                                lhs, rhs = d[0][2]
-                                uses_bias = any(isinstance(x, tuple) and x[:1] == ('field',) and x[2] == 'bias' for x in walk(lhs))
-                                dot = find(rhs, lambda x: is_call(x, 'ArrayBase::dot'))
-                                uses_mat = dot and any(isinstance(x, tuple) and x[:1] == ('field',) and x[2] == 'mat' for x in walk(dot[0][2][0]))
-                                same_pts = dot and any(s(x) == s(_strip_axis(cand)) for x in walk(dot[0][2][1]))
-                                norm = find(d[0], lambda x: is_call(x, 'AffFuncBase::normalize'))
-                                of_poly = norm and all(x[2][0] == ('param', 'poly') for x in norm)
-                                if uses_bias and uses_mat and same_pts and of_poly:
-                                    ok = True
-                                else:
-                                    detail = 'distances are not bias - mat·candidates of normalize(poly)'
+                    if all_nonneg(f, '1'):
+                        why = dist_ok(cand, dist)
+                        ok = why is None
+                        detail = why or ''
+                        dist_expr = _strip_axis(dist)
                 # returned columns are the candidate component
                 maps = find(v, lambda x: is_call(x, 'Iterator::map') and x[2][1][0] == 'closure')
                 for m in maps:
@@ -956,17 +993,70 @@ def check_mirror_contract(ctx, rule):
                     if not (rets3 and len(rets3) == 1 and any(isinstance(x, tuple) and x[:1] == ('field',) and x[2] == '0' for x in walk(rets3[0]))):
                         ok = False
                         detail = 'returned columns are not the candidate component of the (candidate, distance) pairs'
+            else:
+                # the accepted columns are selected by position: candidates.select(Axis(1), positions(distances.axis_iter(Axis(1)), all >= 0))
+                sel = find(v, lambda x: is_call(x, 'ArrayBase::select') and len(x[2]) == 3)
+                if len(sel) == 1 and s_(sel[0][2][1])[2] == (('const', 1),):
+                    cand, idxs = sel[0][2][0], sel[0][2][2]
+                    while is_call(idxs, 'Itertools::collect_vec', 'Iterator::collect', 'Vec::as_slice', '[T]::as_ref', 'Deref::deref') and idxs[2]:
+                        idxs = idxs[2][0]
+                    if is_call(idxs, 'Itertools::positions') and len(idxs[2]) == 2 and idxs[2][1][0] == 'closure' and \
+                            is_call(idxs[2][0], 'ArrayBase::axis_iter') and s_(idxs[2][0][2][1])[2] == (('const', 1),) and all_nonneg(idxs[2][1], None):
+                        dist = idxs[2][0]
+                        why = dist_ok(cand, dist)
+                        ok = why is None
+                        detail = why or ''
+                        dist_expr = _strip_axis(dist)
+                    else:
+                        detail = 'the selected positions are not those of the distance columns that are all >= 0'
             if ok:
                 ctx.ok(rule, site, 'Some(columns) = candidates whose distances b - A·c (normalised poly, minus a positive margin) are all >= 0', st['span'])
             else:
                 ctx.bad(rule, site, 'mirror_points may return a point that did not pass its distance filter. ' + detail, st['span'])
     if somes == 0:
         ctx.lost(rule, 'Some-return of mirror_points')
-    # the margin subtracted from the distances must be non-negative (robustness, never acceptance of outside points)
-    for cb in b.closure_bodies():
-        for i, j, st in cb.stmts():
-            if st['k'] == 'assign' and st['place']['proj'] and st['rv']['k'] == 'binop':
-                pass
+    # the margin applied to the distances before the test moves them away from acceptance (robustness), never towards it
+    if dist_expr is not None and some_blocks:
+        site = '%s#margin' % b.qname
+        shifts = []
+        problems = []
+        for bb, t in b.calls():
+            c = Callee(t['func'])
+            if c.name not in ('map_inplace', 'mapv_inplace', 'sub_assign', 'add_assign', 'mul_assign', 'div_assign'):
+                continue
+            a = R.call_args(bb)
+            if not a or s_(a[0]) != s_(dist_expr):
+                continue
+            if not all(cfg.dominates(bb, sb) for sb in some_blocks):
+                continue   # applied after the test failed: prepares the next candidates
+            if c.name in ('sub_assign', 'add_assign') and a[1][0] == 'const' and isinstance(a[1][1], (int, float)):
+                delta = -a[1][1] if c.name == 'sub_assign' else a[1][1]
+                shifts.append(delta)
+            elif c.name in ('map_inplace', 'mapv_inplace') and a[1][0] == 'closure':
+                cb = F.closure(a[1][1])
+                from ..effects import assigns as _assigns
+                ws = [w for w in _assigns(cb, Resolver(cb))] if cb is not None else []
+                rets = [e for _, e in Resolver(cb).return_expr()] if cb is not None else []
+                vals = [w.value for w in ws] if c.name == 'map_inplace' else rets
+                tgt = ('param', cb.arg_names()[-1]) if cb is not None else None
+                good = bool(vals)
+                for v_ in vals:
+                    v_ = s_(v_)
+                    if v_[0] == 'bin' and v_[1] in ('Sub', 'Add') and v_[2] == tgt and v_[3][0] == 'const' and isinstance(v_[3][1], (int, float)):
+                        shifts.append(-v_[3][1] if v_[1] == 'Sub' else v_[3][1])
+                    else:
+                        good = False
+                if not good:
+                    problems.append('the distances are rewritten before the test by something other than a constant shift')
+            else:
+                problems.append('the distances are rewritten before the test by %s' % c.short)
+        if any(d > 0 for d in shifts):
+            problems.append('the distances are shifted by %s before the test: points up to that far outside the (normalised) polytope are accepted' % '+'.join(repr(d) for d in shifts if d > 0))
+        if problems:
+            for p_ in problems:
+                ctx.bad(rule, site, p_, b.span)
+        else:
+            ctx.ok(rule, site, 'distances are tested as computed, shifted only away from acceptance (%s)' % (', '.join(repr(d) for d in shifts) or 'no shift'), b.span)
 
 
 def _strip_axis(e):
@@ -1134,3 +1224,88 @@ def columns_of(F, b, R, e):
                         return y
         return None
     return None
+
+
+# ---------------------------------------------------------------------------------------
+# thin wrappers: functions whose whole body is one delegation / one re-packing.  The expected value is written in the rendering of
+# mir.fmt (after strip_sites); a list gives alternative spellings.  A closure handed to map() is given by its own return value.
+
+def check_wrappers(ctx, rule, table):
+    """table: qname -> (expected return rendering | list of them, [expected closure return renderings], what it means)"""
+    from ..mir import strip_sites as s_
+    for q, (want, want_clo, what) in table.items():
+        bodies = [b for b in ctx.facts.bodies if b.qname == q]
+        if not bodies:
+            ctx.lost(rule, q)
+            continue
+        for b in bodies:
+            R = Resolver(b)
+            got = sorted(set(fmt(s_(e)) for _, e in R.return_expr()))
+            clo = sorted(fmt(s_(e)) for cb in b.closure_bodies() for _, e in Resolver(cb).return_expr())
+            wants = [want] if isinstance(want, str) else list(want)
+            site = q + '#wrapper'
+            if any('…' in g for g in got + clo):
+                ctx.undecided(rule, site, 'body too deep to compare with the delegation table', b.span)
+            elif len(got) == 1 and got[0] in wants and clo == sorted(want_clo):
+                ctx.ok(rule, site, what, b.span)
+            else:
+                ctx.bad(rule, site, '%s is no longer "%s" (%s): returns %s%s' % (q, wants[0], what, ' | '.join(got)[:200], (' with closure(s) ' + '; '.join(clo)[:120]) if clo else ''), b.span)
+
+
+def column_of_mirror(e):
+    """True / False / None: the expression takes one point out of the array returned by mirror_points as a *column* (points are columns:
+    `val.t().row(k)`, `val.column(k)`, `val.index_axis(Axis(1), k)`) / takes something else out of it / does not involve mirror_points."""
+    from ..mir import strip_sites as s_
+    if not any(is_call(x, 'AffTree::mirror_points') for x in walk(e)):
+        return None
+    found = None
+    for x in walk(e):
+        if is_call(x, 'ArrayBase::row') and x[2] and is_call(x[2][0], 'ArrayBase::t', 'ArrayBase::reversed_axes'):
+            found = True
+        elif is_call(x, 'ArrayBase::column'):
+            found = True
+        elif is_call(x, 'ArrayBase::index_axis', 'ArrayBase::index_axis_move') and len(x[2]) == 3:
+            ax = s_(x[2][1])
+            if ax[0] == 'agg' and ax[2] == (('const', 1),):
+                found = True
+            else:
+                return False
+        elif is_call(x, 'ArrayBase::row', 'ArrayBase::slice', 'ArrayBase::slice_move', 'ArrayBase::iter', 'ArrayBase::into_raw_vec', 'ArrayBase::outer_iter', 'ArrayBase::rows'):
+            if not (is_call(x, 'ArrayBase::row') and x[2] and is_call(x[2][0], 'ArrayBase::t', 'ArrayBase::reversed_axes')):
+                return False
+    return found
+
+
+def leaf_guard(lits, node):
+    """a dominating `tree.is_leaf(node)` test that came out true (Result of is_leaf unwrapped with a false default, with `== Ok(true)`
+    or `matches!(.., Ok(true))` not accepted: only the forms that are false for an invalid index)"""
+    from ..mir import strip_sites as s_
+    for l in lits:
+        if l[0] != 'true':
+            continue
+        e = l[1]
+        if is_call(e, 'Result::unwrap_or') and len(e[2]) == 2 and s_(e[2][1]) == ('const', False):
+            e = e[2][0]
+        elif is_call(e, 'Result::unwrap_or_default', 'Result::unwrap') and len(e[2]) == 1:
+            e = e[2][0]
+        if is_call(e, 'Tree::is_leaf') and len(e[2]) == 2 and s_(e[2][1]) == s_(node):
+            return True
+    return False
+
+
+def full_traversal_item(node, tree=('field', ('param', 'self'), 'tree')):
+    """node = index of the item of a depth-first / breadth-first traversal of `tree` seeded at its root (every node is delivered once)"""
+    from ..mir import strip_sites as s_
+    n = s_(node)
+    if not (n[0] == 'field' and n[2] == 'index'):
+        return False
+    it = n[1]
+    if not is_call(it, 'DfsPre::next', 'Bfs::next', 'TraversalMut::next') or len(it[2]) != 2 or it[2][1] != s_(tree):
+        return False
+    src = it[2][0]
+    if src[0] == 'field' and src[2] == 'iter' and is_call(src[1], 'AffTree::polyhedra', 'PolyhedraGen::new'):
+        a = src[1][2][0]
+        return a in (('param', 'self'), s_(tree))
+    if is_call(src, 'DfsPre::new', 'Bfs::new', 'DfsPre::iter', 'Bfs::iter') and len(src[2]) == 2:
+        return src[2][0] == s_(tree) and is_call(src[2][1], 'Tree::get_root_idx') and src[2][1][2][0] == s_(tree)
+    return False
